@@ -79,6 +79,49 @@ Proof. unfold ProofsInv.carved. intros s s' b ->. auto. Qed.
 Lemma holds_mk : forall p h, holds {| pc := p; held := h |} = h ++ inflight p.
 Proof. reflexivity. Qed.
 
+(* carving the block at the current bump offset and handing it to thread t *)
+Lemma bump_success : forall s t p hl,
+  Inv s -> thr_at s t {| pc := p; held := hl |} -> inflight p = [] ->
+  isPushWon p = false -> isPopWon p = false ->
+  bump s + bsize c <= cap c ->
+  Inv {| head := head s; gen := gen s; nxt := nxt s; count := count s;
+         bump := bump s + bsize c;
+         thr := upd_thr (thr s) t {| pc := Idle; held := hl ++ [bump s] |};
+         fl := fl s; ncas := ncas s |}.
+Proof.
+  intros s t p hl I Hl Hinf Hw1 Hw2 Hroom.
+  destruct (i_thr c s I _ _ Hl) as (Hnd & Hblk & Hpc).
+  rewrite holds_mk, Hinf in *. rewrite ?app_nil_r in *.
+  pose proof I as I0. destruct I as [Ich Ind Ig Ib Ifl Ith Idj Ico Icl Icn].
+  destruct Ib as (m & Em).
+  assert (Hfresh : ~ In (bump s) hl).
+  { intro Hin. destruct (Hblk _ Hin) as (_ & Hlt & _). lia. }
+  eapply (inv_frame c) with (t := t) (l := {| pc := p; held := hl |})
+                            (l' := {| pc := Idle; held := hl ++ [bump s] |});
+    try eassumption; unfold holds; cbn [head gen nxt count bump thr fl ncas pc held inflight]; rewrite ?Hinf, ?app_nil_r; auto.
+  * exists (m + 1). lia.
+  * intros b Hb. specialize (Ifl b Hb). lia.
+  * apply NoDup_snoc; assumption.
+  * intros b Hb. rewrite in_app_iff in Hb. cbn in Hb. unfold ProofsInv.blk_ok. cbn [fl bump].
+    destruct Hb as [Hb|[<-|[]]].
+    -- destruct (Hblk b Hb) as (H1 & H2 & H3). split; [assumption|]. split; [lia|assumption].
+    -- split; [intro Hin; specialize (Ifl _ Hin); lia|]. split; [lia|].
+       apply Htail; lia.
+  * exact Logic.I.
+  * intros b (H1 & H2 & H3) _. unfold ProofsInv.blk_ok. cbn. split; [assumption|]. split; [lia|assumption].
+  * intros b Hb. rewrite in_app_iff in Hb. cbn in Hb. destruct Hb as [Hb|[<-|[]]]; [left; assumption|].
+    right. intros (_ & Hlt & _). lia.
+  * intros b (k0 & E1 & E2 & E3). cbn in E3.
+    destruct (N.eq_dec k0 m) as [->|Hkm].
+    -- right. rewrite in_app_iff. right. left. lia.
+    -- left. exists k0. split; [assumption|]. split; [assumption|]. nia.
+  * intros b Hb. right. rewrite in_app_iff. tauto.
+  * pose proof (cnt_upd isPushWon _ _ {| pc := Idle; held := hl ++ [bump s] |} _ Hl) as E1.
+    pose proof (cnt_upd isPopWon _ _ {| pc := Idle; held := hl ++ [bump s] |} _ Hl) as E2.
+    cbn in E1, E2. rewrite Hw1 in E1. rewrite Hw2 in E2. cbn in E1, E2.
+    eapply count_frame; [exact Icn|assumption|]. left. lia.
+Qed.
+
 Ltac loc := eapply inv_local; try eassumption; try reflexivity; unfold holds; cbn;
             rewrite ?app_nil_r; try tauto; try assumption.
 
@@ -178,48 +221,23 @@ Proof.
       eapply count_frame; [exact Icn|assumption|]. right. right. right. left. lia.
   - (* PopEmpty: bump allocation *)
     rewrite ?app_nil_r in *.
-    pose proof I as I0. destruct I as [Ich Ind Ig Ib Ifl Ith Idj Ico Icl Icn].
-    destruct Ib as (m & Em).
-    destruct (N.ltb_spec (cap c) (bump s + bsize c)) as [Hfull|Hroom].
-    + destruct (lfkind c); cbn [fst].
-      * (* lockfree_pool.rs: the offset advanced although the allocation failed *)
-        eapply (inv_frame c) with (t := t) (l := {| pc := PopEmpty; held := hl |})
-                                  (l' := {| pc := Idle; held := hl |});
-          try eassumption; unfold holds; cbn [head gen nxt count bump thr fl ncas pc held inflight]; rewrite ?app_nil_r; auto.
-        -- exists (m + 1). lia.
-        -- intros b Hb. specialize (Ifl b Hb). lia.
-        -- intros b Hb. destruct (Hblk b Hb) as (H1 & H2 & H3). unfold ProofsInv.blk_ok. cbn. split; [assumption|]. split; [lia|assumption].
-        -- intros b (H1 & H2 & H3) _. unfold ProofsInv.blk_ok. cbn. split; [assumption|]. split; [lia|assumption].
-        -- intros b (k0 & E1 & E2 & E3). left. exists k0. cbn in E3. split; [assumption|]. split; [assumption|lia].
-        -- pose proof (cnt_upd isPushWon _ _ {| pc := Idle; held := hl |} _ Hl) as E1.
-           pose proof (cnt_upd isPopWon _ _ {| pc := Idle; held := hl |} _ Hl) as E2.
-           cbn in E1, E2. eapply count_frame; [exact Icn|assumption|]. left. lia.
+    destruct (lfkind c).
+    + (* lockfree_pool.rs: load next_offset, give up if the block does not fit *)
+      destruct (fits c (bump s)) eqn:Hf; cbn [fst].
+      * loc. unfold fits in Hf. apply Bool.andb_true_iff in Hf. destruct Hf as [Hf _].
+        apply N.leb_le in Hf. exact Hf.
       * loc.
-    + cbn [fst].
-      assert (Hfresh : ~ In (bump s) hl).
-      { intro Hin. destruct (Hblk _ Hin) as (_ & Hlt & _). lia. }
-      eapply (inv_frame c) with (t := t) (l := {| pc := PopEmpty; held := hl |})
-                                (l' := {| pc := Idle; held := hl ++ [bump s] |});
-        try eassumption; unfold holds; cbn [head gen nxt count bump thr fl ncas pc held inflight]; rewrite ?app_nil_r; auto.
-      * exists (m + 1). lia.
-      * intros b Hb. specialize (Ifl b Hb). lia.
-      * apply NoDup_snoc; assumption.
-      * intros b Hb. rewrite in_app_iff in Hb. cbn in Hb. unfold ProofsInv.blk_ok. cbn [fl bump].
-        destruct Hb as [Hb|[<-|[]]].
-        -- destruct (Hblk b Hb) as (H1 & H2 & H3). split; [assumption|]. split; [lia|assumption].
-        -- split; [intro Hin; specialize (Ifl _ Hin); lia|]. split; [lia|].
-           apply Htail; lia.
-      * intros b (H1 & H2 & H3) _. unfold ProofsInv.blk_ok. cbn. split; [assumption|]. split; [lia|assumption].
-      * intros b Hb. rewrite in_app_iff in Hb. cbn in Hb. destruct Hb as [Hb|[<-|[]]]; [left; assumption|].
-        right. intros (_ & Hlt & _). lia.
-      * intros b (k0 & E1 & E2 & E3). cbn in E3.
-        destruct (N.eq_dec k0 m) as [->|Hkm].
-        -- right. rewrite in_app_iff. right. left. lia.
-        -- left. exists k0. split; [assumption|]. split; [assumption|]. nia.
-      * intros b Hb. right. rewrite in_app_iff. tauto.
-      * pose proof (cnt_upd isPushWon _ _ {| pc := Idle; held := hl ++ [bump s] |} _ Hl) as E1.
-        pose proof (cnt_upd isPopWon _ _ {| pc := Idle; held := hl ++ [bump s] |} _ Hl) as E2.
-        cbn in E1, E2. eapply count_frame; [exact Icn|assumption|]. left. lia.
+    + (* five_level_pool.rs: check and advance under the mutex *)
+      destruct (N.ltb_spec (cap c) (bump s + bsize c)) as [Hfull|Hroom]; cbn [fst]; [loc|].
+      eapply bump_success; eauto.
+  - (* PopBump: compare-exchange on next_offset *)
+    rewrite ?app_nil_r in *.
+    destruct (N.eqb_spec (bump s) cur) as [Hc|Hc]; cbn [fst].
+    + subst cur. cbn in Hpc. eapply bump_success; eauto.
+    + destruct (fits c (bump s)) eqn:Hf; cbn [fst].
+      * loc. unfold fits in Hf. apply Bool.andb_true_iff in Hf. destruct Hf as [Hf _].
+        apply N.leb_le in Hf. exact Hf.
+      * loc.
   - (* PushStart *)
     cbn [fst].
     loc. lia.
